@@ -39,7 +39,20 @@ const shiftCap = 1023 - 1 + 52 // go/types bound on constant shift counts (and g
 func truncQuo(x, y *big.Int) *big.Int { return new(big.Int).Quo(x, y) }
 func truncRem(x, y *big.Int) *big.Int { return new(big.Int).Rem(x, y) }
 
+// refBeyond is set when an intermediate value leaves go/constant's exact range (numerator or denominator
+// of 4000 bits or more): go/constant then continues with a 512-bit big.Float, as the Go specification allows,
+// and the judge for such a tree is go/types, not exact arithmetic.
+var refBeyond bool
+
 func evalRef(n *node) (*uv, error) {
+	v, err := evalRef1(n)
+	if v != nil && !v.small() {
+		refBeyond = true
+	}
+	return v, err
+}
+
+func evalRef1(n *node) (*uv, error) {
 	switch {
 	case n.Op == "":
 		return n.Val, nil
